@@ -1,14 +1,17 @@
 PROPERTY = {
     'id': 'C18',
     'extra': ['bounded.c08_lines.run', 'bounded.c01_chunks.run', 'bounded.c18_roundtrip.run'],
-    'contract_modules': ['doctest_example', 'doctest_part', 'parser'],
-    'functions': ['xdoctest.doctest_part:DoctestPart.format_part', 'xdoctest.utils.util_str:indent',
+    'contract_modules': ['doctest_example', 'util_stream', 'checker', 'doctest_part', 'runner', 'parser'],
+    'functions': ['xdoctest.doctest_part:DoctestPart.format_part', 'xdoctest.doctest_part:DoctestPart.format_part#numbered', 'xdoctest.doctest_example:DocTest.format_parts',
+                  'xdoctest.doctest_part:DoctestPart.format_part#any', 'xdoctest.doctest_example:DoctestConfig.getvalue#display', 'xdoctest.doctest_example:DocTest._parse', 'xdoctest.utils.util_str:indent',
                   'xdoctest.utils.util_str:add_line_numbers', 'xdoctest.utils.util_str:highlight_code',
                   'xdoctest.parser:DoctestParser._package_groups#offsets', 'xdoctest.parser:DoctestParser._package_chunk',
                   'xdoctest.parser:DoctestParser._package_chunk#slices', 'xdoctest.parser:DoctestParser._package_chunk.slice_example',
                   'xdoctest.parser:DoctestParser._locate_ps1_linenos', 'xdoctest.directive:Directive.extract'],
     'clauses': {
-        'P': ['DoctestPart.format_part with prompts, without colours, line numbers or part numbers: the text is exactly the part\'s original '
+        'P': ['numbered display (DoctestPart.format_part with linenos): source line k of a part is shown as the number startline + line_offset + k, a blank and the line; want lines are indented by the number column and carry no number; add_line_numbers: line k gets start + k',
+              'DocTest.format_parts: every part is formatted exactly once, in order, with the same options and the same first number: 1 or (offset_linenos) the line of the doctest in its file',
+              'DoctestPart.format_part with prompts, without colours, line numbers or part numbers: the text is exactly the part\'s original '
               'prompt lines in order, followed -- iff want=True and the part has a want -- by its want lines in order, joined by newlines: '
               'every source and want line once, nothing added, dropped, trimmed or reordered (loop invariant over the want lines)',
               'the line offsets the numbered display adds to (part.line_offset) are the true indices of the parts: _package_groups offset invariant',
